@@ -50,6 +50,14 @@ def _enc_event(ev):
     }
 
 
+def _cell(c):
+    """a delivered cell as text: the record's own cell, or f"{v}" of a value a rewriting function put there"""
+    if isinstance(c, str):
+        return txt(c)
+    runner.enc(c)       # raises OutOfModel for values outside the model
+    return txt(str(c))
+
+
 def comment_for(cfg):
     parts = []
     if not cfg["AND"]:
@@ -131,7 +139,7 @@ def run_case(case, method="collect"):
             "checkStdout": not raised and not any("\n" in x for x in cap.lines),
             "stdout": [txt(x) for x in sbuf.getvalue().split("\n")[:-1]] if not raised else [],
             "checkLines": lines is not None and not raised,
-            "lines": [[txt(c) for c in l] for l in (lines or [])] if not raised else [],
+            "lines": [[_cell(c) for c in l] for l in (lines or [])] if not raised else [],
             "headers": [txt(h) for h in (p.headers or [])] if p.scanner is not None else [],
         }
     except OutOfModel as e:
@@ -140,11 +148,12 @@ def run_case(case, method="collect"):
     # python-side wiring check: the cells delivered are the cells of the records the events name
     cells_ok = True
     nrec = len(case["records"])
-    if lines is not None and not raised:
+    rewrites = bool(case["prog"].get("_rewrites"))     # replace/append/collect: what is delivered is judged by the specification only
+    if lines is not None and not raised and not rewrites:
         want = [case["records"][k] if k < nrec else None for k in ret_idx]
         if [list(l) for l in lines] != want:
             cells_ok = False
-    if p.unmatched is not None and not raised:
+    if p.unmatched is not None and not raised and not rewrites:
         want = [case["records"][k] if k < nrec else None for k in notret_idx]
         if [list(l) for l in p.unmatched] != want:
             final["unmatched"] = [-1]
